@@ -45,6 +45,16 @@ func translatePath(path string) (string, fileType) {
 	}
 }
 
+// LstatIfPossible passes request to underlying filesystem (if it's able to do it): symlinks are not resolved.
+func (fsys *FS) LstatIfPossible(path string) (fs.FileInfo, bool, error) {
+	if lstater, ok := fsys.Fs.(afero.Lstater); ok {
+		return lstater.LstatIfPossible(path)
+	}
+
+	info, err := fsys.Fs.Stat(path)
+	return info, false, err
+}
+
 func (fsys *FS) Open(path string) (afero.File, error) {
 	return fsys.OpenFile(path, os.O_RDONLY, 0)
 }
